@@ -18,7 +18,7 @@ import io
 import json
 import tokenize
 
-from vlib import astcanon, c01_findings, common, corpus, pymutate, pyoracle
+from vlib import astcanon, c01_findings, common, corpus, pygen, pymutate, pyoracle, stylist
 from vlib.common import Failure, Stats
 
 PROP = "C01"
@@ -260,6 +260,48 @@ def worker_mut(arg):
 
 
 # ----------------------------------------------------------------------------------------
+# family (d): constructed programs in random surface styles
+
+
+def worker_gen(arg):
+    seed, n, budget, scratch = arg
+    from hypothesis import strategies as hs
+
+    st = Stats()
+
+    def body(rnd):
+        g = pygen.Gen(rnd, budget=budget)
+        shape = rnd.randrange(6)
+        if shape == 0:
+            tree = ast.Module(body=[ast.Expr(value=g.expr(4))], type_ignores=[])
+            modes = MODES
+        elif shape == 1:
+            tree = ast.Module(body=[g.stmt(2)], type_ignores=[])
+            modes = ("exec", "single")
+        else:
+            tree = g.program(max_stmts=3, depth=2)
+            modes = ("exec",)
+        src = pygen.render(tree)
+        if src is None:
+            st.discards += 1
+            return
+        try:
+            pyoracle.cpy_parse(src)
+        except (SyntaxError, ValueError, RecursionError, MemoryError):
+            st.discards += 1
+            st.hist["gen-selfcheck-failed"] += 1
+            return
+        sty = stylist.Styler(rnd)
+        text = sty.restyle(src)
+        for t in sty.applied:
+            st.hist["style:" + t] += 1
+        check_generated(st, text, "generated", modes=modes)
+
+    common.run_given(hs.randoms(use_true_random=False), body, seed, n)
+    return st
+
+
+# ----------------------------------------------------------------------------------------
 
 
 def _pick_files(run):
@@ -294,9 +336,12 @@ def main(run):
     gfiles = sorted(gset)
     wsfiles = files if run.tier == "thorough" else gfiles[:24]
     common.pool_map(run, __name__, "worker_ws", [(wsfiles[i::nw], run.scratch) for i in range(nw) if wsfiles[i::nw]])
-    nmut = run.n(2500, 60000)
+    nmut = run.n(1800, 60000)
     common.pool_map(run, __name__, "worker_mut",
                     [(common.worker_seed(run.seed, w), nmut, gfiles[w % 4::4], run.scratch) for w in range(nw)])
+    ngen = run.n(900, 40000)
+    common.pool_map(run, __name__, "worker_gen",
+                    [(common.worker_seed(run.seed, 50 + w), ngen, 25 + 10 * (w % 4), run.scratch) for w in range(nw)])
     xin = corpus.xonsh_test_inputs()
     common.pool_map(run, __name__, "worker_texts", [(xin[i::4], "xonsh-test-inputs", run.scratch) for i in range(4)])
     run.assumptions += [
